@@ -73,6 +73,8 @@ class DictV:
 
     def copy(self):
         d = DictV(self.has, self.val, self.vkind, self.kkind, self._ne)
+        if hasattr(self, 'extra'):
+            d.extra = self.extra
         d._len = self._len
         return d
 
@@ -403,7 +405,11 @@ class Exec:
         if isinstance(e.op, ast.Sub):
             return IntV(za - zb)
         if isinstance(e.op, ast.Mult):
-            return IntV(simplify(za) * simplify(zb))
+            return IntV(M.mul(simplify(za), simplify(zb)))
+        if isinstance(e.op, ast.Pow) and z3.is_int_value(za) and za.as_long() == 2:
+            # 2**e: an int only for e >= 0 (a float otherwise); modelled by the uninterpreted P2 with P2(0) = 1, P2(k+1) = 2 P2(k)
+            self.oblige(p, f'power-of-two-exponent-nonnegative@{e.lineno}', zb >= 0, e.lineno)
+            return IntV(M.P2(zb))
         raise Unsupported(f'binop {type(e.op).__name__}@{e.lineno}')
 
     def ev_BoolOp(self, e, p):
@@ -633,6 +639,8 @@ class Exec:
             return self.read_field(p.mgrs[v.mkey], v.attr, self.ev(e.slice, p), p, e.lineno)
         if isinstance(v, DictV):
             key = self.ev(e.slice, p)
+            if isinstance(key, StrV) and v.kkind == 'int' and key.v in getattr(v, 'extra', {}):
+                return IntV(v.extra[key.v])       # a dict keyed by levels that also carries a few string keys (map_level['all'])
             kz = key.z if v.kkind == 'name' else (self.as_fork(key, p) if v.kkind == 'fork' else zint(key, self, p))
             self.oblige(p, f'keyerror:{ast.unparse(base)}@{e.lineno}', v.has[kz], e.lineno)
             self.assume(p, v.has[kz])     # otherwise KeyError (obligation above); also an instantiation trigger
